@@ -308,6 +308,8 @@ class Sensor(SensorBase):
         for v in values:
             sensor_subset = copy.copy(self)
             setattr(sensor_subset, axis, v)  # change the sensor values
+            if axis == "frequency":
+                sensor_subset.wavelength = C_SPEED / v  # keep the wavelength consistent with the frequency
             yield sensor_subset
 
 
